@@ -66,6 +66,10 @@ P = {
    text="Decided on every path of the mocks package: at most one outcome per input message in the mock async producer, sync producer returns the scripted result or the reported deviation's error; expectations consumed from the head one per message (len(msgs) for batches) under a non-empty test; partition = configured partitioner over configured partition count, stored and returned; lastOffset++ once per success, consumer offsets from the atomic counter; the ErrorReporter is called exactly at the tabled deviation sites, once per message; expectation state under the mock's mutex (lockset).",
    note="Behaviour of user-supplied checkers/partitioners and channel-capacity effects are not covered. The Errorf site table is frozen per function (count), not per position.",
    technique="SSA per-iteration path counting, provenance matching, who-may-call table, lockset"),
+ "C08": dict(claimed=True,
+   text="PARTIAL claim: only the eligibility guards necessary for 'only to a member subscribed to that topic, no unknown member, no nonexistent partition' are decided (round-robin hasTopic guard; sticky assign/reassign eligibility; prior ownership kept only if the partition exists and the owner still subscribes, otherwise re-queued as unassigned; every member registered and emitted; range builds member lists from subscriptions and plans each topic over its own partition list). Completeness and uniqueness of the plan are algorithmic and NOT decided.",
+   note="That every partition is assigned, and to exactly one member, needs reasoning about the algorithm's state (execution or a solver) and is outside this technique family.",
+   technique="SSA guard (dominating-predicate) queries and provenance matching"),
  "C01": dict(claimed=True,
    text="Structural necessary conditions of exactly-one-outcome decided on every CFG path of the producer pipeline (emit/Done pairing, no partially disposed batch, marker accounting, exactly-once routing of every partition set, retry budget guards, Wait-before-close, sync-producer expectation protocol). It is not a proof of the behaviour: cross-goroutine liveness of the retry loop is not covered.",
    note="Trusts go/ssa's model of the source; disposer functions are computed as a fixed point from the source, channel/field anchors are named in rules_c01.go.",
